@@ -42,7 +42,7 @@ def with_restarts(rng, inst, kinds=("soft", "hard", "hardnew")):
     inst["rhoend_scale"] = _pick(rng, [1.0, 0.5, 0.1])
     n = inst["n"]
     if rng.random() < 0.35 and n >= 2 and not inst.get("proj") and not inst.get("growing"):
-        npt = {"n+1": n + 1, "2n+1": 2 * n + 1, "mid": n + 1 + max(1, n // 2), "n+2": n + 2}.get(inst.get("npt", "n+1"), n + 1)
+        npt = {"n+1": n + 1, "2n+1": 2 * n + 1, "mid": n + 1 + max(1, n // 2), "n+2": n + 2, "full": (n + 1) * (n + 2) // 2}.get(inst.get("npt", "n+1"), n + 1)
         room = (n + 1) * (n + 2) // 2 - npt
         if room >= 1:
             inst["incnpt"] = int(min(room, _pick(rng, [1, 2])))
